@@ -7,9 +7,10 @@
   * C16CompassC: `compass_parse` – the parser reads it back as `(h, w, pos)`.
   * C16CompassD: `compass_pzpr`  – `Pzpr.decodeCompass` reads it as `compassBoard h w pos`.
 
-  Finding (see `plus_form_written` / `plus_form_unreadable` below): `encode_array` writes a clue number in 256..4095 as
-  `+xxx`, which `parse_puzz_link_url` cannot read (`int("+", 16)` raises `ValueError`); hence the numbers of the
-  round-trip domain are -1..255 (`CompassClueOk`).
+  Numbers: -1 (none) or 0..4095 (`CompassClueOk`).  `encode_array` writes a number in 256..4095 as `+xxx`; the unchanged
+  `parse_puzz_link_url` cannot read that form (`int("+", 16)` raises `ValueError`, defect D14).  The model follows the
+  FIXED parser (patch D14: a `+` branch reading three hexadecimal digits), so the round trip covers the whole range;
+  `plus_form_written` / `plus_form_read` / `plus_form_pzpr` below show the `+100...` URL going round.
 -/
 import CspuzModel.Proofs.C16CompassB
 import CspuzModel.Proofs.C16CompassC
@@ -47,21 +48,23 @@ theorem compass_roundtrip (h w : Nat) (pos : List CompassClue) (hok : ∀ c ∈ 
       Pzpr.decodeCompass h w body = some (compassBoard h w pos) :=
   ⟨bodyOf h w pos, compass_url h w pos hok hs, compass_parse h w pos hok hs hdh hdw, compass_pzpr h w pos hok hs⟩
 
-/-! ### the finding: numbers 256..4095 are written but cannot be read back -/
+/-! ### the `+xxx` form (numbers 256..4095; readable since patch D14) -/
 
 /-- `to_puzz_link_url(1, 1, [(0, 0, 256, -1, -1, -1)])` is `https://puzz.link/p?compass/1/1/+100...` -/
 theorem plus_form_written : compassToPuzzLinkUrl 1 1 [⟨0, 0, 256, -1, -1, -1⟩]
     = .ok (puzzLinkPrefix ++ strOfString "compass" ++ [47] ++ toBase 10 1 ++ [47] ++ toBase 10 1 ++ [47]
         ++ strOfString "+100...") := by rfl
 
-/-- … and `parse_puzz_link_url` of that URL raises `ValueError` (from `int("+", 16)`) -/
-theorem plus_form_unreadable :
+/-- … and the (patched) `parse_puzz_link_url` reads that URL back -/
+theorem plus_form_read :
     compassParsePuzzLinkUrl (puzzLinkPrefix ++ strOfString "compass" ++ [47] ++ toBase 10 1 ++ [47] ++ toBase 10 1 ++ [47]
-        ++ strOfString "+100...") = .raised .valueError := by rfl
+        ++ strOfString "+100...") = .ok (1, 1, [⟨0, 0, 256, -1, -1, -1⟩]) := by rfl
 
+/-- … as does the pzpr decoder -/
+theorem plus_form_pzpr :
+    Pzpr.decodeCompass 1 1 (strOfString "+100...") = some [[some (256, -1, -1, -1)]] := by rfl
+
+/-- what the unchanged parser stumbled over: `int("+", 16)` -/
 example : pyIntHex (strOfString "+") = .raised .valueError := by rfl
-
-/-- the pzpr decoder does read the `+xxx` form -/
-example : Pzpr.decodeCompass 1 1 (strOfString "+100...") = some [[some (256, -1, -1, -1)]] := by rfl
 
 end Cspuz.Proofs.C16Compass
